@@ -138,7 +138,7 @@ MajorSols(b, m, e, s) ==     \* {<<allele bag, novel set, score>>}
 (* ---- stage 3: minor alleles ---------------------------------------------------------------------- *)
 MinorCase(b, m, e, s, x) ==
     LET sites == TLCEval(SitesOf(b, m, VarIds)) IN
-    [p |-> PStage, struct |-> StructSeq(s), majors |-> Majors, minors |-> Minors, call |-> x,
+    [p |-> PStage, struct |-> StructSeq(s), majors |-> Majors, minors |-> Minors, call |-> x, phases |-> <<>>,
      sites |-> TLCEval([i \in DOMAIN sites |-> SiteRec(b, m, e, sites[i], VarIds)]),
      vars  |-> TLCEval([v \in VarIds |-> [si |-> SiteIdx(sites, LoadSite(b, m, v)), ins |-> Variants[v].ins, core |-> Variants[v].core]]),
      cfgs  |-> CfgRows(b, m, sites)]
